@@ -34,7 +34,7 @@ def run(ctx):
     ef = effects(repo)
     ctx.decided = ['C10.1 stop() returns the pause flag after processing', 'C10.2 flag cleared before forwarding', 'C10.3 pause iff breakpoint matches',
                    'C10.4 invoke_command: quit / continue / stay halted', 'C10.5 only resume resumes, only quit quits',
-                   'C10.6 writers of the flags', 'C10.7 prompt loop of file/run mode']
+                   'C10.6 writers of the flags', 'C10.7 prompt loop of file/run mode', 'C10.8 a typed command reaches its handler (C18.5, C17.5 lifted)']
     ctx.undecided = ['what matches() returns (C05)', "GDB's own handling of continue/quit and of a True/False return from Breakpoint.stop"]
     ctx.assumptions = ['gdb.Breakpoint.stop() returning True halts the inferior, False lets it run (GDB Python API, frozen)']
 
@@ -230,6 +230,22 @@ def run(ctx):
         ctx.check(len(pr) == len(pc) and all(a[0] < b[0] and norm(b[1].args[0]).startswith('self.input_func(') for a, b in zip(pr, pc)),
                   'C10.7', 'prompt-loop:one-prompt-one-command', f_run.loc(), 'each turn reads one line and processes exactly that line',
                   'turn structure is %s' % [e.text[:40] for _, e in pr + pc])
+    # ---- C10.8 a typed command reaches its handler ---------------------------------------------------------------------
+    # `resume` continues and `quit` quits only if the command line gets from the prompt to the handler: the findings of the command
+    # dispatcher's own rules (nothing escapes process_command - C18.5; pasted colour is stripped before tokenising - C17.5) are findings here
+    from ..report import Ctx as _Ctx
+    from . import c17 as _c17, c18 as _c18
+    nlift = 0
+    for mod_, prop_, rules_ in ((_c18, 'C18', ('C18.5',)), (_c17, 'C17', ('C17.5',))):
+        sub = _Ctx(prop_, repo, tier=ctx.tier, quiet=True)
+        mod_.run(sub)
+        nlift += len([o for o in sub.obligations if o['rule'] in rules_])
+        for v in sub.violations:
+            if v['rule'] in rules_:
+                ctx.violation('C10.8', 'command-dispatch:%s:%s' % (v['rule'], v['key']), v['site'],
+                              'a command typed while halted must reach its handler (%s): %s' % (v['rule'], v['msg']), v['witness'])
+    ctx.check(True, 'C10.8', 'command-dispatch:evaluated', 'Controller.process_command', 'dispatcher rules C18.5 / C17.5 evaluated (%d obligations)' % nlift)
+    ctx.floor('C10.8', nlift, 5, 'dispatcher obligations lifted from C18.5 / C17.5')
     return ('scenario evaluation of the breakpoint guard, of invoke_command and of the prompt loop; who-calls tables and call-graph '
             'closures over the command registry; writer enumeration of the two flags. Decided: %s. Undecided: %s'
             % ('; '.join(ctx.decided), '; '.join(ctx.undecided)))
